@@ -169,7 +169,9 @@ func checkEntry(w *hc.W, e common.Entry) {
 	for _, seq := range ri.SortedSeqs(assigned) {
 		acc := append(append([]ri.KM{}, assigned[seq]...), xmods[seq]...)
 		if seq == "\x7f" {
-			acc = append(append([]ri.KM{}, acc...), ri.KM{Key: tcell.KeyBackspace2})
+			// "a single DEL byte being reported as Backspace2", whichever key (kbs, kdch1) the
+			// description sends it for
+			acc = []ri.KM{{Key: tcell.KeyBackspace2}}
 		}
 		evs, ok := one(seq)
 		if !ok {
@@ -276,7 +278,7 @@ func checkEntry(w *hc.W, e common.Entry) {
 	}
 	{
 		evs, ok := one("\x7f")
-		if ok && (len(evs) != 1 || !accepts(append([]ri.KM{{Key: tcell.KeyBackspace2}}, assigned["\x7f"]...), evs[0])) {
+		if ok && (len(evs) != 1 || !accepts([]ri.KM{{Key: tcell.KeyBackspace2}}, evs[0])) {
 			viol("del", "\x7f", fmt.Sprintf("DEL decodes to %s, want Backspace2", fmtEvs(evs)))
 		} else if ok {
 			addSingle("\x7f", evs)
